@@ -116,7 +116,45 @@ def pyeq : V → V → Bool
   | .int i, .bool a => (if a then 1 else 0) == i
   | a, b => decide (a = b)
 
+/-- the parts of a list of code points between the occurrences of `sep` (never an empty list) -/
+def splitChars (sep : Char) : List Char → List (List Char)
+  | [] => [[]]
+  | c :: cs =>
+    if c = sep then [] :: splitChars sep cs
+    else match splitChars sep cs with
+      | [] => [[c]]
+      | p :: ps => (c :: p) :: ps
+
+/-- `x.split(sep)` on a `str` with a separator of one character: all the parts, in order (Python returns a
+list of `str`; a list of n separators gives n + 1 parts).  Other receivers are outside the model. -/
+def split (sep : Char) : V → Option (List V)
+  | .str cs => some ((splitChars sep cs).map V.str)
+  | _ => Option.none
+
 end V
+
+/-- `len(xs)` of a list -/
+def pylen {α : Type} (xs : List α) : V := V.int xs.length
+
+/-- truth value of "a list or `None`" -/
+def optListTruthy {α : Type} : Option (List α) → Bool
+  | Option.none => false
+  | some xs => !xs.isEmpty
+
+/-- `for x in xs: if c(x): return found(x)` followed by `rest`: the elements are looked at in order, the
+first one whose condition holds decides, a condition that raises ends everything, and `rest` is what
+happens when the loop runs to its end -/
+def forFirst {α β : Type} (xs : List α) (c : α → Option Bool) (found : α → Option β) (rest : Option β) : Option β :=
+  match xs with
+  | [] => rest
+  | x :: r => (c x).bind fun b => if b then found x else forFirst r c found rest
+
+/-- `for x in xs: body` where the body only changes the state `s` (no `return`, `break`, `continue`): the
+body is run for every element in order; a body that raises ends everything -/
+def forEachM {α σ : Type} (xs : List α) (s : σ) (f : σ → α → Option σ) : Option σ :=
+  match xs with
+  | [] => some s
+  | x :: r => (f s x).bind fun s' => forEachM r s' f
 
 /-- a mapping with string keys (`dict.get`) -/
 abbrev Dict := String → Option V
